@@ -72,6 +72,8 @@ func PathValues(p protopath.Path, m proto.Message) (protopath.Values, error) {
 			if !cursor.IsValid() {
 				return protopath.Values{}, fmt.Errorf("%d: cursor map missing key %v", i, step.MapIndex())
 			}
+			// The cursor is now at the map's value, so its fields are those of the value's message.
+			desc = fd.MapValue().Message()
 			v.Values = append(v.Values, cursor)
 		case protopath.AnyExpandStep:
 			if desc != step.MessageDescriptor() {
